@@ -58,11 +58,24 @@ theorem kwConflict_some {es : List Entry} {kw : List (Key × Val)} {k : Key} (h 
     List.find?_some (p := fun (kf : Key × (Entry → Option Val)) => !(optArray kf.2 es).isEmpty && kw.any (·.1 == kf.1)) hf
   exact ⟨kf, List.mem_of_find?_eq_some hf, rfl, (clash_iff es kw kf).mp hp⟩
 
+/-- the keyword `kwConflict` names clashes, and no keyword before it in `optKeys` does -/
+theorem kwConflict_first {es : List Entry} {kw : List (Key × Val)} {k : Key} (h : kwConflict es kw = some k) :
+    ∃ kf before after, optKeys = before ++ kf :: after ∧ kf.1 = k ∧ clashes es kw kf ∧ ∀ kf' ∈ before, ¬ clashes es kw kf' := by
+  unfold kwConflict at h
+  obtain ⟨kf, hf, rfl⟩ := Option.map_eq_some_iff.mp h
+  obtain ⟨hp, before, after, hsplit, hbefore⟩ := List.find?_eq_some_iff_append.mp hf
+  refine ⟨kf, before, after, hsplit, rfl, (clash_iff es kw kf).mp hp, fun kf' hm hc => ?_⟩
+  have := hbefore kf' hm
+  rw [(clash_iff es kw kf').mpr hc] at this
+  cases this
+
 theorem applyKw_nil (e : Entry) : applyKw [] e = e := rfl
 
-theorem drawSpaceKw_eq {sp : Space} (hw : sp.WF) (heap : Heap) (p : Portrayal) (kw : List (Key × Val)) :
+theorem drawSpaceKw_eq {sp : Space} (hw : sp.WF) (hr : drawRaises sp = none) (heap : Heap) (p : Portrayal) (kw : List (Key × Val)) :
     drawSpaceKw sp heap p kw = scatterKw (drawEntries sp heap p) (if forwardsKwargs sp.fam then kw else []) := by
   unfold drawSpaceKw
+  rw [hr]
+  simp only
   rw [collect_eq_filterMap _ _ _ _ (spaceAgents_located hw)]
   simp only [drawEntries, List.map_filterMap]
   congr 2
